@@ -5,6 +5,7 @@ package types
 import (
 	"context"
 	"encoding/binary"
+	"encoding/hex"
 	"strconv"
 
 	"github.com/cossacklabs/acra/decryptor/base"
@@ -130,7 +131,18 @@ func VerifC19_FailurePolicy() {
 		_, out, err = (&TextDataType{}).Encode(ctx, verifDup(stored), f)
 	case 3:
 		if policy == 1 {
-			return // bytea defaults are base64 text: covered by acra's own table tests, not here
+			// bytea defaults are configured as base64 text: the empty value, one byte, two bytes
+			defs := []struct {
+				b64 string
+				raw []byte
+			}{{"", []byte{}}, {"QQ==", []byte("A")}, {"QUI=", []byte("AB")}}
+			d := defs[verif.Choose("bytea-default", 0, len(defs)-1)]
+			b64 := d.b64
+			f.def = &b64
+			want = d.raw
+			if !binaryFmt {
+				want = append([]byte("\\x"), []byte(hex.EncodeToString(d.raw))...)
+			}
 		}
 		_, out, err = NewByteaDataTypeEncoder().Encode(ctx, verifDup(stored), f)
 	}
